@@ -216,6 +216,81 @@ def pricing_grid():
                 ops.append(f"respond req={req_id(0xC07, k, k, 0)} prov={P1} code=200 out=valid")
             ops += ["endblock dt=5000000000", f"withdraw owner={O1} prov=-"]
             out.append((f"grid:pricing:{base}:{dT}:{dV}:v{v1}:w{win}", ops))
+    # two consecutive time windows with different discounts: batches fall before, inside the first, inside the second
+    # and after both (the selection of the window in force)
+    for base, d1, d2 in [("30stake", "500000000000000000", "100000000000000000"), ("7stake", "900000000000000000", "500000000000000000")]:
+        ops = [genesis(), f"fund acct={O1} amt=1000000", f"fund acct={C1} amt=100000",
+               f"define name=svc author={O1} schema=ok",
+               f"bind svc=svc prov={P1} owner={O1} dep=10000 price={base} promT={t0 + 10000000000}:{t0 + 20000000000}:{d1};{t0 + 20000000000}:{t0 + 35000000000}:{d2} promV=- qos=1",
+               f"call tx={tx(0xC07)} idx=0 svc=svc provs={P1} cons={C1} cap=100 timeout=1 super=0 rep=1 freq=1 total=10 input=ok"]
+        for k in range(1, 11):
+            ops.append("endblock dt=5000000000")
+            ops.append(f"respond req={req_id(0xC07, k, k, 0)} prov={P1} code=200 out=valid")
+        ops.append("endblock dt=5000000000")
+        out.append((f"grid:pricing:two-windows:{base}", ops))
+    return out
+
+
+def boundary_grid():
+    """C20: boundary-shaped messages that pass (or just fail) stateless validation, each sent once to the handler in a
+    state with a binding, a running repeated context and a pending request: empty coin lists, zero and maximal numeric
+    fields, maximal and over-long provider lists, absent optional fields."""
+    provs10 = ",".join([P1, P2] + [("%02x" % (0x70 + i)) * 20 for i in range(8)])
+    provs11 = provs10 + "," + "7f" * 20
+    cid = ctx_id(0xC20)
+    r0 = req_id(0xC20, 1, 1, 0)
+    big = "57896044618658097711785492504343953926634992332820282019728792003956564819967"
+    pre = prelude(two_providers=True) + [
+        f"call tx={tx(0xC20)} idx=0 svc=svc provs={P1},{P2} cons={C1} cap=10 timeout=3 super=0 rep=1 freq=5 total=-1 input=ok",
+        "endblock dt=5000000000"]
+    msgs = [
+        f"call tx={tx(0xC21)} idx=0 svc=svc provs={P1} cons={C1} cap=- timeout=3 super=0 rep=0 freq=0 total=0 input=ok",
+        f"call tx={tx(0xC22)} idx=0 svc=svc provs={P1} cons={C1} cap=0 timeout=3 super=0 rep=0 freq=0 total=0 input=ok",
+        f"call tx={tx(0xC23)} idx=0 svc=svc provs={provs10} cons={C1} cap=10 timeout=3 super=0 rep=0 freq=0 total=0 input=ok",
+        f"call tx={tx(0xC24)} idx=0 svc=svc provs={provs11} cons={C1} cap=10 timeout=3 super=0 rep=0 freq=0 total=0 input=ok",
+        f"call tx={tx(0xC25)} idx=0 svc=svc provs=- cons={C1} cap=10 timeout=3 super=0 rep=0 freq=0 total=0 input=ok",
+        f"call tx={tx(0xC26)} idx=9223372036854775807 svc=svc provs={P1} cons={C1} cap={big} timeout=100 super=1 rep=1 freq=4611686018427387904 total=9223372036854775807 input=ok",
+        f"call tx={tx(0xC27)} idx=0 svc=svc provs={P1} cons={C1} cap=10 timeout=0 super=0 rep=1 freq=0 total=-1 input=ok",
+        f"call tx={tx(0xC28)} idx=0 svc=svc provs={P1} cons={C1} cap=10 timeout=1 super=0 rep=1 freq=0 total=0 input=ok",
+        f"call tx={tx(0xC29)} idx=0 svc=svc provs={P1} cons=- cap=10 timeout=1 super=0 rep=0 freq=0 total=0 input=ok",
+        f"bind svc=svc prov={'44' * 20} owner={O1} dep=- price=5stake promT=- promV=- qos=1",
+        f"bind svc=svc prov={'45' * 20} owner={O1} dep=0 price=5stake promT=- promV=- qos=1",
+        f"bind svc=svc prov={'46' * 20} owner={O1} dep=10000 price=- promT=- promV=- qos=1",
+        f"bind svc=svc prov={'47' * 20} owner={O1} dep=10000 price=0stake promT=- promV=- qos=0",
+        f"bind svc=svc prov={'48' * 20} owner={O1} dep=10000 price=5stake promT=- promV=- qos=18446744073709551615",
+        f"bind svc=svc prov=- owner={O1} dep=10000 price=5stake promT=- promV=- qos=1",
+        f"update svc=svc prov={P1} owner={O1} dep=- price=- promT=- promV=- qos=0",
+        f"update svc=svc prov={P1} owner={O1} dep=0 price=- promT=- promV=- qos=0",
+        f"disable svc=svc prov={P2} owner={O1}",
+        f"enable svc=svc prov={P2} owner={O1} dep=-",
+        f"disable svc=svc prov={P2} owner={O1}",
+        f"enable svc=svc prov={P2} owner={O1} dep=0",
+        f"updatectx ctx={cid} cons={C1} provs=- cap=- timeout=0 freq=0 total=0",
+        f"updatectx ctx={cid} cons={C1} provs={provs10} cap=- timeout=0 freq=0 total=0",
+        f"updatectx ctx={cid} cons={C1} provs={provs11} cap=- timeout=0 freq=0 total=0",
+        f"updatectx ctx={cid} cons={C1} provs=- cap=0 timeout=0 freq=0 total=0",
+        f"updatectx ctx={cid} cons={C1} provs=- cap={big} timeout=100 freq=4611686018427387904 total=9223372036854775807",
+        f"respond req={r0} prov={P1} code=200 out=absent",
+        f"respond req={r0} prov={P1} code=400 out=valid",
+        f"respond req={r0} prov=- code=200 out=valid",
+        f"respond req={r0} prov={P1} code=500 out=absent",
+        f"setwd owner={O1} addr=-",
+        f"setwd owner=- addr={C1}",
+        f"withdraw owner={O1} prov=-",
+        f"withdraw owner={C1} prov=-",
+        f"withdraw owner=- prov=-",
+        f"define name=- author={O1} schema=ok",
+        f"define name={'a' * 70} author={O1} schema=ok",
+        f"define name={'a' * 71} author={O1} schema=ok",
+        f"define name=svc2 author=- schema=ok",
+        f"pause ctx={cid} cons=-", f"start ctx={cid} cons=-", f"kill ctx={cid} cons=-",
+        f"refund svc=svc prov={P2} owner={O1}",
+    ]
+    out = []
+    # each message alone after the prelude (so that an earlier one cannot mask it), and all of them in one history
+    for i, m in enumerate(msgs):
+        out.append((f"grid:boundary:{i}", pre + [m, "endblock dt=5000000000", "endblock dt=5000000000"]))
+    out.append(("grid:boundary:all", pre + msgs + ["endblock dt=5000000000"] * 6))
     return out
 
 
@@ -225,12 +300,13 @@ GRIDS = {
     "module": module_grid,
     "query": query_grid,
     "pricing": pricing_grid,
+    "boundary": boundary_grid,
 }
 
 # which grids each property runs
 FOR_PROPERTY = {
     "C01": ["respond", "pricing"], "C02": ["respond", "lifecycle", "pricing"], "C04": ["respond"], "C08": ["respond"],
     "C09": ["lifecycle"], "C10": ["lifecycle"], "C11": ["lifecycle", "respond"], "C12": ["module", "respond"],
-    "C16": ["lifecycle", "respond"], "C06": ["respond", "pricing", "module"], "C18": ["respond"], "C20": ["lifecycle"],
+    "C16": ["lifecycle", "respond"], "C06": ["respond", "pricing", "module"], "C18": ["respond"], "C20": ["lifecycle", "boundary"],
     "C17": ["query"], "C15": ["query"], "C07": ["pricing", "respond"],
 }
